@@ -73,21 +73,45 @@ def noActionRowTypes : List Str :=
    "split_random".toList, "start_new_flow".toList, "call_webhook".toList,
    "transfer_airtime".toList]
 
-/-- action type ↦ row type written by `get_row_model_fields` (`self.type` = same word) -/
+/-- action type ↦ row type written by `get_row_model_fields` (`self.type` = same word), in the
+order of `action_map`; the types missing here are `passThroughTypes` -/
 def exportRowType : List (Str × Str) :=
-  [(tAddContactUrn, tAddContactUrn), (tCallWebhook, tCallWebhook),
-   (tTransferAirtime, tTransferAirtime), (tSendMsg, rSendMessage),
-   (tSetContactField, rSaveValue), (tAddGroups, rAddToGroup),
-   (tRemoveGroups, rRemoveFromGroup), (tSetRunResult, rSaveFlowResult),
-   (tEnterFlow, rStartNewFlow)]
+  [(tAddGroups, rAddToGroup), (tAddContactUrn, tAddContactUrn), (tCallWebhook, tCallWebhook),
+   (tEnterFlow, rStartNewFlow), (tRemoveGroups, rRemoveFromGroup), (tSendMsg, rSendMessage),
+   (setContactPrefix ++ "channel".toList, setContactPrefix ++ "channel".toList),
+   (tSetContactField, rSaveValue),
+   (setContactPrefix ++ "language".toList, setContactPrefix ++ "language".toList),
+   (setContactPrefix ++ "name".toList, setContactPrefix ++ "name".toList),
+   (setContactPrefix ++ "status".toList, setContactPrefix ++ "status".toList),
+   (setContactPrefix ++ "timezone".toList, setContactPrefix ++ "timezone".toList),
+   (tSetRunResult, rSaveFlowResult), (tTransferAirtime, tTransferAirtime)]
 
-/-- row type ↦ the `mainarg_*` / `webhook.body` field the `message_text` column means -/
-def mainArgOf : List (Str × Str) :=
-  [(rSendMessage, "mainarg_message_text".toList), (rSaveValue, "mainarg_value".toList),
-   (rAddToGroup, "mainarg_groups".toList), (rRemoveFromGroup, "mainarg_groups".toList),
-   (rSaveFlowResult, "mainarg_value".toList), (tAddContactUrn, "mainarg_value".toList),
-   (tCallWebhook, "webhook.body".toList), (tTransferAirtime, "mainarg_dict".toList),
-   (rStartNewFlow, "mainarg_flow_name".toList)]
+/-- the row-model keys each action class writes (sorted); everything else keeps its default -/
+def exportKeys : List (Str × List Str) :=
+  [("AddContactGroupAction".toList, ["mainarg_groups".toList, "obj_id".toList, "type".toList]),
+   ("AddContactURNAction".toList, ["mainarg_value".toList, "type".toList, "urn_scheme".toList]),
+   ("CallWebhookAction".toList, ["save_name".toList, "type".toList, "webhook".toList]),
+   ("EnterFlowAction".toList, ["mainarg_flow_name".toList, "obj_id".toList, "type".toList]),
+   ("RemoveContactGroupAction".toList, ["mainarg_groups".toList, "obj_id".toList, "type".toList]),
+   ("SendMessageAction".toList,
+     ["attachments".toList, "audio".toList, "choices".toList, "image".toList,
+      "mainarg_message_text".toList, "type".toList, "video".toList, "wa_template".toList]),
+   ("SetContactPropertyAction".toList, ["mainarg_value".toList, "type".toList]),
+   ("SetContactFieldAction".toList, ["mainarg_value".toList, "save_name".toList, "type".toList]),
+   ("SetRunResultAction".toList,
+     ["mainarg_value".toList, "result_category".toList, "save_name".toList, "type".toList]),
+   ("TransferAirtimeAction".toList, ["mainarg_dict".toList, "save_name".toList, "type".toList])]
+
+/-- `_get_row_action`: row type ↦ type of the action it constructs, in the order of the
+`if … elif` chain (then the `set_contact_` prefix branch, then `noActionRowTypes`) -/
+def parseDispatch : List (Str × Str) :=
+  [(rSendMessage, tSendMsg), (rSaveValue, tSetContactField), (rAddToGroup, tAddGroups),
+   (tAddContactUrn, tAddContactUrn), (rRemoveFromGroup, tRemoveGroups),
+   (rSaveFlowResult, tSetRunResult)]
+
+/-- `_get_row_node`: row type ↦ type of the action its node constructor creates -/
+def nodeDispatch : List (Str × Str) :=
+  [(rStartNewFlow, tEnterFlow), (tCallWebhook, tCallWebhook), (tTransferAirtime, tTransferAirtime)]
 
 def mediaKinds : List Str := ["image".toList, "audio".toList, "video".toList]
 /-- `attachment[6:]` -/
@@ -141,7 +165,7 @@ structure GroupRef where
 structure Templating where
   name : Str
   templateUuid : Str
-  variables : List Str := []
+  vars : List Str := []
   deriving Repr, DecidableEq
 
 /-- a JSON number -/
@@ -197,7 +221,7 @@ inductive Item where
 structure WaTemplate where
   name : Str := []
   uuid : Str := []
-  variables : List Str := []
+  vars : List Str := []
   deriving Repr, DecidableEq
 
 structure Webhook where
@@ -358,12 +382,12 @@ def mediaKindOf (a : Str) : Option Str :=
 
 /-- `WhatsAppMessageTemplating.to_whats_app_templating_dict` (only `if self.templating`) -/
 def templToWa : Option Templating → WaTemplate
-  | some t => { name := t.name, uuid := t.templateUuid, variables := t.variables }
+  | some t => { name := t.name, uuid := t.templateUuid, vars := t.vars }
   | none => {}
 
 /-- `if row.wa_template.name: … from_whats_app_templating_model(row.wa_template)` -/
 def waToTempl (w : WaTemplate) : Option Templating :=
-  if w.name ≠ [] then some { name := w.name, templateUuid := w.uuid, variables := w.variables }
+  if w.name ≠ [] then some { name := w.name, templateUuid := w.uuid, vars := w.vars }
   else none
 
 /-- send_msg: (media kind, payload after the cut, generic attachment list).  Only a LONE
